@@ -44,7 +44,7 @@ class Shape:
     """one family member: how the graph is drawn from symbolic choices"""
 
     def __init__(self, name, nb, nsrc=1, slots=2, fixed_ins=None, roles='all', outs2=(), phony='sym', pools=None,
-                 targets='last', validation_free=False, cyclic=False):
+                 targets='last', validation_free=False, cyclic=False, kmodes=(None, 'sym'), dirty='sym', par='sym', outcomes=None):
         self.name, self.nb, self.nsrc, self.slots = name, nb, nsrc, slots
         self.fixed_ins = fixed_ins      # {step: [file indices]} or None = symbolic over earlier files
         self.roles = roles              # 'all' | 'ordval' | 'explicit'
@@ -54,6 +54,10 @@ class Shape:
         self.targets = targets          # 'last' | 'every' | 'sym' (symbolic non-empty subset of outputs)
         self.validation_free = validation_free   # validation slots may name any file (cycles through |@)
         self.cyclic = cyclic            # ordering slots may name any output (real cycles)
+        self.kmodes = kmodes            # which -k settings are explored
+        self.dirty = dirty              # 'sym' | 'all' (every non-phony step is out of date)
+        self.par = par                  # 'sym' (any -j >= 1) | a concrete -j
+        self.outcomes = outcomes        # None = the check's outcome set
 
 
 ROLE_SPLITS = {
@@ -61,6 +65,7 @@ ROLE_SPLITS = {
     'all': lambda k: [(e, i, o) for e in range(k + 1) for i in range(k + 1 - e) for o in range(k + 1 - e - i)],
     'ordval': lambda k: [(e, 0, 0) for e in range(k + 1)],
     'explicit': lambda k: [(k, 0, 0)],
+    'eov': lambda k: [(k, 0, 0), (0, 0, k), (0, 0, 0)] if k == 1 else [(k, 0, 0), (0, 0, k), (0, 0, 0), (1, 0, 0), (1, 0, 1)],
     'ord3': lambda k: [(k, 0, 0), (0, k, 0), (0, 0, k), (k - 1, 0, 1)] if k > 0 else [(0, 0, 0)],
 }
 
@@ -82,6 +87,7 @@ class Desc:
         self.targets = getattr(H, 'cur_targets', None)
         self.has_k = H.kfail is not None
         self.has_depth = H.depth is not None
+        self.par = H.shape.par
         self.names = list(H.world.names)
 
     def closure(self, targets):
@@ -132,7 +138,7 @@ class Sched:
         self.shape = shape
         self.groups = set(groups)        # which properties' assertions are armed
         self.cut = cut
-        self.outcomes = outcomes
+        self.outcomes = shape.outcomes or outcomes
         self.adopt = adopt
         self.fn_new = I.fn('new', 'work.rs', impl='Work')
         self.fn_want = I.fn('want_file', 'work.rs', impl='Work')
@@ -298,7 +304,7 @@ class Sched:
                 mon.settled[b] = True
                 mon.events.append(('phony', b))
                 return ok(BoolV(False))
-            dirty = I.choose('dirty%d' % b, 2) == 1
+            dirty = True if H.shape.dirty == 'all' else I.choose('dirty%d' % b, 2) == 1
             if not dirty:
                 mon.settled[b] = True
             mon.events.append(('judge', b, dirty))
@@ -386,9 +392,13 @@ class Sched:
         w = self.build_world(I)
         g = w.graph()
         # -j: any value >= 1; -k: none or any value >= 1; pool depth: any value
-        self.par = I.fresh_int('j', 64)
-        I.solver.add(self.par.v != 0)
-        if I.choose('kmode', 2) == 0:
+        if sh.par == 'sym':
+            self.par = I.fresh_int('j', 64)
+            I.solver.add(self.par.v != 0)
+        else:
+            self.par = usize(sh.par)
+        km = sh.kmodes[I.choose('kmode', len(sh.kmodes))]
+        if km is None:
             self.kfail = None
             fl = none()
         else:
@@ -443,11 +453,11 @@ class Sched:
                     I.fail('C06:false-cycle', 'dependency cycle reported for an acyclic request: %r' % msg, extra=self.extra())
                 if not msg.startswith(b'dependency cycle: ') or not self.cycle_text_ok(msg):
                     I.fail('C06:cycle-text', 'cycle error does not spell a real cycle: %r' % msg, extra=self.extra())
-            return 'cycle-error'
+            return {'shape': sh.name, 'events': [], 'result': 'cycle-error', 'states': []}
         if cyc:
             if 'C06' in self.groups:
                 I.fail('C06:cycle-accepted', 'a dependency cycle among the requested steps was accepted', extra=self.extra())
-            return 'cycle-missed'
+            return {'shape': sh.name, 'events': [], 'result': 'cycle-missed', 'states': []}
         bs = L.get(work, 'build_states')
         states = [s.variant for s in dm_items(L.get(bs, 'states'))]
         wanted = self.closure(tfiles)
@@ -570,18 +580,21 @@ def pool_families(tier):
 
 def closure_families(tier):
     return [
-        Shape('three steps, symbolic wiring incl. validation, symbolic target subset', 3, nsrc=1, slots=2, roles='all',
-              phony='none', targets='sym', validation_free=True),
-        Shape('three steps, build everything', 3, nsrc=1, slots=1, roles='all', phony='sym', targets='every', validation_free=True),
+        Shape('three steps, one input slot each (explicit / order-only / validation naming any file), symbolic target subset', 3,
+              nsrc=1, slots=1, roles='eov', phony='none', targets='sym', validation_free=True, kmodes=(None,), dirty='all', par=1, outcomes=('Success',)),
+        Shape('three steps, two slots, symbolic target subset', 3, nsrc=1, slots=2, roles='eov', phony='none', targets='sym',
+              kmodes=(None,), dirty='all', par=1, outcomes=('Success',)),
+        Shape('three steps, build everything', 3, nsrc=1, slots=1, roles='eov', phony='sym', targets='every',
+              validation_free=True, kmodes=(None,), dirty='all', par=1, outcomes=('Success',)),
     ]
 
 
 def cycle_families(tier):
     return [
-        Shape('three steps, ordering inputs may name any output (cycles)', 3, nsrc=1, slots=1, roles='all', phony='sym',
-              targets='sym', cyclic=True, validation_free=True),
-        Shape('two-output step in a possible cycle', 2, nsrc=1, slots=1, outs2=(0,), roles='ordval', phony='none',
-              targets='sym', cyclic=True, validation_free=True),
+        Shape('three steps, the single input of each may name any file (ordering cycles and validation cycles)', 3, nsrc=1,
+              slots=1, roles='eov', phony='none', targets='sym', cyclic=True, validation_free=True, kmodes=(None,), dirty='all', par=1, outcomes=('Success',)),
+        Shape('two-output step in a possible cycle', 2, nsrc=1, slots=1, outs2=(0,), roles='eov', phony='none',
+              targets='sym', cyclic=True, validation_free=True, kmodes=(None,), dirty='all', par=1, outcomes=('Success',)),
     ]
 
 
@@ -619,12 +632,13 @@ def native_args(H):
     depth = '-' if H.depth is None else '{depth}'
     tg = getattr(H, 'cur_targets', None)
     targets = 'every' if tg is None else ','.join(str(t) for t in tg)
-    return 'sched %s %s {j} %s %s %s %s%s' % (graph, targets, k, depth, ''.join(dirty), ','.join(script) or '-',
+    jj = '{j}' if H.shape.par == 'sym' else str(H.shape.par)
+    return 'sched %s %s %s %s %s %s %s%s' % (graph, targets, jj, k, depth, ''.join(dirty), ','.join(script) or '-',
                                              ' adopt' if H.adopt else '')
 
 
 def fill_cmd(template, model):
-    return template.format(j=(model.get('j', 1) or 1), k=(model.get('k', 1) or 1), depth=model.get('depth', 0))
+    return template.format(j=(model.get('j', 1) or 1) if '{j}' in template else 1, k=(model.get('k', 1) or 1), depth=model.get('depth', 0))
 
 
 def parse_native(ans):
@@ -664,7 +678,7 @@ def trace_violations(H, nat, model):
     judged = [0] * nb
     nfail = nsucc = 0
     interrupted = False
-    j = model.get('j', 1) or 1
+    j = H.par if H.par != 'sym' else (model.get('j', 1) or 1)
     k = None if not H.has_k else (model.get('k', 1) or 1)
     depth = None if not H.has_depth else model.get('depth', 0)
     wanted = set(b for b, s in enumerate(nat['wanted']) if s != 'Unknown')
